@@ -58,6 +58,7 @@ impl NamedAlg {
         }
     }
 }
+#[macro_export]
 macro_rules! leak_crc {
     ($t:ty, $a:expr) => {{
         let c: &'static crc::Crc<$t> = Box::leak(Box::new(crc::Crc::<$t>::new($a)));
@@ -69,11 +70,11 @@ macro_rules! leak_crc {
 macro_rules! with_digest {
     ($alg:expr, |$d:ident| $body:expr) => {
         match &$alg.1 {
-            $crate::ser::Alg::A8(a) => { let c = leak_crc!(u8, a); let $d = c.digest(); $body }
-            $crate::ser::Alg::A16(a) => { let c = leak_crc!(u16, a); let $d = c.digest(); $body }
-            $crate::ser::Alg::A32(a) => { let c = leak_crc!(u32, a); let $d = c.digest(); $body }
-            $crate::ser::Alg::A64(a) => { let c = leak_crc!(u64, a); let $d = c.digest(); $body }
-            $crate::ser::Alg::A128(a) => { let c = leak_crc!(u128, a); let $d = c.digest(); $body }
+            $crate::ser::Alg::A8(a) => { let c = $crate::leak_crc!(u8, a); let $d = c.digest(); $body }
+            $crate::ser::Alg::A16(a) => { let c = $crate::leak_crc!(u16, a); let $d = c.digest(); $body }
+            $crate::ser::Alg::A32(a) => { let c = $crate::leak_crc!(u32, a); let $d = c.digest(); $body }
+            $crate::ser::Alg::A64(a) => { let c = $crate::leak_crc!(u64, a); let $d = c.digest(); $body }
+            $crate::ser::Alg::A128(a) => { let c = $crate::leak_crc!(u128, a); let $d = c.digest(); $body }
         }
     };
 }
